@@ -857,6 +857,32 @@ func FileText(root *Root, specs []*Spec) string {
 	return sb.String()
 }
 
+// siblingName is the helper field of compile.rules ops on enum fields (see RulesFileText).
+const siblingName = "sibE"
+
+// RulesFileText is the file of a compile.rules op. For an enum field under test the object gets a
+// second, rule-less field of the SAME named enum whose requiredness is the opposite of the field
+// under test (`!` iff the field under test is not required): one compilation then holds a
+// required and a non-required reference to one enum, the situation in which state shared per enum
+// between fields would leak (seeded C12-m8). A required sibling is filled by buildMessage with
+// the first declared option (number 1); a non-required one is left unset, so any requiredness that
+// leaks onto it shows as a rejection. The sibling is a function of the spec: the op format and the
+// model (per field) are unchanged.
+func RulesFileText(spec *Spec) string {
+	txt := FileText(nil, []*Spec{spec})
+	if spec.Kind != "enum" {
+		return txt
+	}
+	mark := ""
+	if !spec.Req {
+		mark = "! "
+	}
+	sib := "  field " + siblingName + " " + mark + "enum:" + spec.enumTypeName() + "\n"
+	// after the helper field z, before the field under test
+	anchor := "  field z ! string\n"
+	return strings.Replace(txt, anchor, anchor+sib, 1)
+}
+
 // ---------------------------------------------------------------- enum naming (independent of the compiler)
 
 // the default prefix is defined by the language as strcase.ToScreamingSnake(name) + "_" (a
